@@ -116,10 +116,12 @@ def op (st : St) (toks : List String) : St × String :=
       | _, _, _ => (st, "BADOP search outcome")
     | _, _, _, _ => (st, "BADOP search args")
   | "node" :: kind :: _k :: _thr :: _filt :: id :: ";" :: rest =>
-    match id.toNat?, splitSemi rest with
-    | some id, [n, v] =>
-      let isLive := st.live.any (·.1 == id)
+    match parseIds id, splitSemi rest with
+    | some idl, [n, v] =>
+      -- one or several node ids: all must be live for the search to succeed
+      let isLive := idl.all fun id => st.live.any (·.1 == id)
       match n, v with
+      | "err" :: _, "err" :: _ => (st, "ok err")   -- e.g. an invalid extra query vector: both forms fail alike
       | "err" :: e :: _, _ =>
         if isLive then (st, s!"SPECFAIL node[{kind}] query of live id {id} failed ({e})")
         else (st, "ok err")   -- the property demands an error, not a particular wording
@@ -127,7 +129,9 @@ def op (st : St) (toks : List String) : St × String :=
         if !isLive then (st, s!"SPECFAIL node[{kind}] query of unknown/removed id {id} succeeded")
         else match nh.mapM parseHit32, vh.mapM parseHit32 with
           | some a, some b =>
-            if sameSet a b then (st, s!"ok n={a.length} node=1")
+            -- both are valid answers of the same search: equal score lists (ids may differ
+            -- inside a tie at the k-th place, Go map order)
+            if sameSet a b || scoreList m.sc a == scoreList m.sc b then (st, s!"ok n={a.length} node=1")
             else (st, s!"SPECFAIL node[{kind}] id {id}: node query and stored-vector query differ: node={showHits32 a} vector={showHits32 b}")
           | _, _ => (st, "BADOP node hits")
       | "ok" :: _, "err" :: _ => (st, s!"DIFF node[{kind}]: stored-vector query failed")
